@@ -209,5 +209,32 @@ example : let st : ExpState := { seq := 4294967295, templates := [(256, { fieldC
       | .ok n w => (n, w.take 16) | .err => (0, [])) =
     [(23, msgHeader 23 0 2 0), (22, msgHeader 22 0 4 0)] := by decide
 
+/-- C08 as an independent decoder sees it: the one message a successful SendSet writes parses (with
+    the parser that shares nothing with the encoder, `parseMessage`) as version 10 with header length =
+    the byte count reported to the caller, the export time handed in, the exporter's NEW counter value,
+    the configured observation domain, and one set - the set id the builder was prepared with, a set
+    length covering the rest of the message, the record buffers as its body -/
+theorem sent_message_parses (st st' : ExpState) (time : Nat) (s : SetB) (hi : C16.Inv s) (n : Nat) (w : Bytes)
+    (h : st.sendBuilt time s = (st', .ok n w)) (sid : Nat) (hsid : s.header.take 2 = be 2 sid) (hsl : sid < 65536)
+    (hd : st.dom < 4294967296) (hs : st.seq < 4294967296) (ht : time < 4294967296) :
+    ∃ m, parseMessage w = some m ∧ m.version = 10 ∧ m.length = n ∧ m.time = time ∧ m.seq = st'.seq ∧
+      m.dom = st.dom ∧ m.setId = sid ∧ m.setLen = n - 16 ∧ m.body = (s.recs.map (·.bytes)).flatten := by
+  obtain ⟨hn, _, hseq, hc⟩ := send_ok st st' time s n w h
+  have hi' : C16.Inv s.updateLen := C16.inv_step s .updateLen hi
+  have hlt : st'.seq < 4294967296 := by
+    rw [hseq]; split
+    · exact Nat.mod_lt _ (by decide)
+    · exact hs
+  have hhdr : s.updateLen.header = be 2 sid ++ be 2 s.updateLen.length := by
+    rw [(C16.header_len s hi.2).1, hsid]; rfl
+  obtain ⟨m, hp, h1, h2, h3, h4, h5, h6, h7, h8⟩ :=
+    C02.wire_header s.updateLen st.dom st'.seq time sid w hc hi' hhdr hsl hd hlt ht
+  exact ⟨m, hp, h1, by rw [h2, hn], h3, h4, h5, h6, by rw [h7, hn], h8⟩
+
+/-- the wrap-crossing session through the independent parser: (length, sequence number, set id, set length) -/
+example : let st : ExpState := { seq := 4294967295, templates := [(256, { fieldCount := 1, minLen := 1 })] }
+    ((sendAll 0 st [dataSet 3, dataSet 2]).2.map fun r => match r with
+      | .ok _ w => (parseMessage w).map (fun m => (m.length, m.seq, m.setId, m.setLen)) | .err => none) =
+    [some (23, 2, 256, 7), some (22, 4, 256, 6)] := by decide
 
 end Ipfix.C08
